@@ -45,6 +45,8 @@ def main():
     run.extra['cvc5_crosscheck'] = {k: symjx.CROSS[k] for k in ('checked', 'agree', 'unknown', 'errors', 'disagree')}
     if symjx.CROSS['disagree']:
       run.fail('cvc5 disagrees with z3 on %d queries' % symjx.CROSS['disagree'])
+  if symjx is not None and symjx.RETRIES['tried']:
+    run.extra['reseeded_retries_after_unknown'] = dict(symjx.RETRIES)
   if symjx is not None and symjx.FALSIFY['attempts']:
     run.extra['guided_model_search_after_unknown'] = {k: symjx.FALSIFY[k] for k in ('attempts', 'found')}
   sys.exit(run.finish(getattr(mod, 'LEVEL', 'model_checking')))
